@@ -1,6 +1,6 @@
 From Coq Require Import List Arith NArith Bool Lia.
 Import ListNotations.
-Require Import Urcu.Base.MachE Urcu.Wfs.Wfs.
+Require Import Urcu.Base.MachE Urcu.Wfs.Wfs Urcu.Gen.Generated.
 Local Open Scope N_scope.
 
 Notation tup := (tupd sloc sprog).
@@ -260,6 +260,39 @@ Proof.
   - intros u. rewrite HF. apply H8.
 Qed.
 
+Lemma Inv_popall_xchg_mb (s : st8) st t rest :
+  tpc _ _ (TH s t) = {| scur := A_Xchg; stodo := rest |} -> BUF s t = [] -> Inv s st ->
+  Inv (mkst (upd sloc sloc_eqb (smem _ _ s) SHead vend)
+            (tup (sthr _ _ s) t (mkts {| scur := A_Mb (M s SHead); stodo := rest |} []))) [].
+Proof.
+  intros Epc Eb HI. pose proof HI as [H1 H2 H3 H4 H5 H6 H7 H8].
+  assert (EPC : PC s t = A_Xchg) by (unfold PC; rewrite Epc; reflexivity).
+  set (s' := mkst _ _).
+  assert (HMh : M s' SHead = vend) by reflexivity.
+  assert (HMo : forall a, M s' (SNext a) = M s (SNext a)) by reflexivity.
+  assert (HTt : TH s' t = mkts {| scur := A_Mb (M s SHead); stodo := rest |} []) by (unfold s'; apply TH_same).
+  assert (HT : forall u, u <> t -> TH s' u = TH s u) by (intros u Hne; unfold s'; apply TH_other; exact Hne).
+  assert (HW : forall u x y, wit s' u x y <-> wit s u x y).
+  { intros u x y. rewrite !wit_witT. destruct (Nat.eq_dec u t) as [->|Hne].
+    - rewrite HTt. unfold witT, TH in *; cbn. rewrite Epc. unfold BUF, TH in Eb. rewrite Eb. cbn. split; intros [E|[]]; discriminate.
+    - rewrite HT by exact Hne. tauto. }
+  assert (HF : forall u, future s' u = future s u).
+  { intros u. rewrite !future_futT. destruct (Nat.eq_dec u t) as [->|Hne]; [rewrite HTt; unfold futT; rewrite Epc; reflexivity|rewrite HT by exact Hne; reflexivity]. }
+  constructor.
+  - rewrite HMh. discriminate.
+  - rewrite HMh. reflexivity.
+  - intros u x y Hu. apply HW in Hu. destruct (H3 u x y Hu) as (A & B & C & D).
+    split; [rewrite HMo; exact A|]. split; [exact B|]. split; [exact C|].
+    intros w y' Hw. apply HW in Hw. apply (D w y' Hw).
+  - intros u. unfold BUF, PC. destruct (Nat.eq_dec u t) as [->|Hne]; [rewrite HTt; cbn; split; [lia|exact I]|rewrite HT by exact Hne; apply H4].
+  - intros u l v. unfold BUF. destruct (Nat.eq_dec u t) as [->|Hne]; [rewrite HTt; cbn; intros []|rewrite HT by exact Hne; apply H5].
+  - intros u m. rewrite HF. intros Hm. destruct (H6 u m Hm) as (A & B & C & D).
+    split; [exact A|]. split; [rewrite HMo; exact B|]. split; [intros []|].
+    intros b [w Hw]. apply HW in Hw. apply (D b). exists w. exact Hw.
+  - intros u w m. rewrite !HF. apply H7.
+  - intros u. rewrite HF. apply H8.
+Qed.
+
 Lemma st_eta (s : st8) : s = mkst (smem _ _ s) (sthr _ _ s).
 Proof. destruct s; reflexivity. Qed.
 
@@ -275,7 +308,7 @@ Proof.
     assert (HWno : forall a b, (forall x y, pc <> P_Store x y) -> wit s t a b <-> In (SNext a, b) (BUF s t)).
     { intros a b Hno. unfold wit. rewrite EPC. split; [intros [E|H]; [destruct (Hno _ _ E)|exact H]|intros H; right; exact H]. }
     unfold sact; cbn [scur stodo].
-    destruct pc as [|n|n|n old|rb| |cur|cur]; cbn [snext scur stodo].
+    destruct pc as [|n|n|n old|rb| |cur|cur|cur]; cbn [snext scur stodo].
     + (* Idle *)
       destruct todo as [|[n|] rest]; cbn [fst snd gupd].
       * exact HI.
@@ -323,7 +356,15 @@ Proof.
     + (* A_Xchg *)
       idtac.
       destruct (BUF s t) eqn:Eb; cbn [fst snd gupd]; [|exact HI].
-      rewrite N.eqb_refl. apply (Inv_popall_xchg s st t todo Etp Eb HI).
+      rewrite N.eqb_refl. destruct emit_legacy_mb; [apply (Inv_popall_xchg_mb s st t todo Etp Eb HI)|apply (Inv_popall_xchg s st t todo Etp Eb HI)].
+    + (* A_Mb: fence needs an empty buffer *)
+      idtac.
+      destruct (BUF s t) eqn:Eb; cbn [fst snd gupd]; [|exact HI].
+      apply Inv_thread_upd; try exact HI; unfold witT, futT; cbn.
+      * intros a b. rewrite (HWno a b) by discriminate. split; [intros [E|[]]; discriminate|intros []].
+      * rewrite Efut. reflexivity.
+      * split; [lia|reflexivity].
+      * intros l v [].
     + (* A_Iter *)
       idtac.
       destruct (cur =? vend); cbn [fst snd gupd].
